@@ -104,7 +104,12 @@ def gen(rng):
         ops.append(req)
         if rng.random() < 0.7:
             ops.append({"op": "drain"})
-    return {"base": [lat, lon], "topo": topo, "alg": rng.choice((1, 2)), "stations": st, "ops": ops}
+    # non-default configuration of timers and ranges (the same on every station of the scenario)
+    mib = {"itsGnLocationServiceRetransmitTimer": rng.choice((1000, 1000, 500, 1500)), "itsGnLocationServiceMaxRetrans": rng.choice((10, 10, 2, 5)),
+           "itsGnCbfMaxTime": rng.choice((100, 100, 50, 200)), "itsGnCbfMinTime": rng.choice((1, 1, 10)),
+           "itsGnDefaultMaxCommunicationRange": rng.choice((1000, 1000, 500, 3000)), "itsGnDPLLength": rng.choice((8, 8, 16, 32)),      # never shorter than the default: with a 2-entry duplicate list a burst of 3 GUCs re-broadcast by several forwarders is legitimately re-delivered (C06 models short lists exactly)
+           "itsGnLifetimeLocTE": rng.choice((20, 20, 60))}
+    return {"base": [lat, lon], "topo": topo, "alg": rng.choice((1, 2)), "stations": st, "ops": ops, "mib": mib}
 
 
 def run_case(c, res):
@@ -116,7 +121,7 @@ def run_case(c, res):
         S = []
         for i, sd in enumerate(c["stations"]):
             S.append(w.add(f"S{i}", mid_of(i + 1), lat=sd["lat"], lon=sd["lon"], st=sd["st"], pai=bool(sd["pai"]), s=sd["s"], h=sd["h"],
-                           ports=sd["ports"], mib_over={"itsGnAreaForwardingAlgorithm": AreaForwardingAlgorithm(c["alg"])}))
+                           ports=sd["ports"], mib_over={"itsGnAreaForwardingAlgorithm": AreaForwardingAlgorithm(c["alg"]), **c.get("mib", {})}))
         if c["topo"] == "line":
             for i in range(n - 1):
                 w.ether.connect(f"S{i}", f"S{i + 1}")
@@ -130,7 +135,7 @@ def run_case(c, res):
                     S[op["st"]].router.gn_data_request_beacon()
                 elif op["op"] == "drain":
                     w.settle()
-                    w.clock.advance(0.15)
+                    w.clock.advance(c.get("mib", {}).get("itsGnCbfMaxTime", 100) / 1000.0 + 0.05)
                     w.settle()
                 elif op["op"] == "deliver_one":
                     w.ether.step()
@@ -203,7 +208,8 @@ def run_case(c, res):
                 return
         # quiesce: drain, CBF timers, LS retransmissions up to give-up
         w.settle()
-        for _ in range(14):
+        m_ = c.get("mib", {})
+        for _ in range(int(m_.get("itsGnLocationServiceMaxRetrans", 10) * m_.get("itsGnLocationServiceRetransmitTimer", 1000) / 1000.0) + 4):
             w.clock.advance(1.0)
             if w.settle() == -1:
                 res.violation("C01:ether-does-not-quiesce", "delivery rounds bound hit", c)
